@@ -408,33 +408,52 @@ theorem pySlice_neg (d : Bytes) (k : Nat) (hk : 0 < k) : pySlice d 0 (-(k : Int)
   rw [h2]
   simp [slice]
 
-/-- `pieceBytes` in terms of the three elementary steps -/
-theorem pieceBytes_eq (before cutEnd : Nat) (lastKey : Option (Nat × Nat)) (st : Bool) (key : Nat × Nat) (d : Bytes)
-    (hc : 0 < cutEnd) :
-    pieceBytes before cutEnd lastKey st key d =
+theorem patchHdr_length (key : Nat × Nat) (d : Bytes) : (patchHdr key d).length = d.length := by
+  unfold patchHdr setByte
+  split
+  · split <;> split <;> simp
+  · rfl
+
+/-- `pieceBytes` in terms of the three elementary steps, for a piece that has its planned length -/
+theorem pieceBytes_eq (before cutEnd : Nat) (lastKey : Option (Nat × Nat)) (st : Bool) (key : Nat × Nat) (planned : Nat) (d : Bytes)
+    (hc : 0 < cutEnd) (hd : d.length = planned) :
+    pieceBytes before cutEnd lastKey st key planned d =
       (if some key == lastKey then
         (if st then (patchHdr key d).drop before else patchHdr key d).take
           ((if st then (patchHdr key d).drop before else patchHdr key d).length - (if cutEnd = 0x200 then 0 else cutEnd))
        else (if st then (patchHdr key d).drop before else patchHdr key d)) := by
-  unfold pieceBytes patchHdr
+  have hp := patchHdr_length key d
+  unfold pieceBytes
   simp only
-  generalize (if st = true then List.drop before (if (key.1 == secHeader) = true then setByte (setByte d 0x18B 0) 0x18F 4 else d)
-    else if (key.1 == secHeader) = true then setByte (setByte d 0x18B 0) 0x18F 4 else d) = d2
+  rw [show (if (key.1 == secHeader) = true then setByte (setByte d 0x18B 0) 0x18F 4 else d) = patchHdr key d from rfl]
+  generalize patchHdr key d = d2 at hp ⊢
+  have hl2 : d2.length = planned := by rw [hp, hd]
   by_cases hl : (some key == lastKey) = true
   · rw [if_pos hl]
     by_cases h2 : cutEnd = 0x200
-    · simp [hl, h2]
+    · subst h2
+      simp only [hl, bne_self_eq_false, Bool.and_false, Bool.false_eq_true, if_false, if_true, Nat.sub_zero]
+      cases st
+      · simp [← hl2]
+      · simp only [if_true, List.length_drop]
+        rw [List.take_of_length_le (by omega), List.take_of_length_le (by simp)]
     · have : (cutEnd != 0x200) = true := by simpa using h2
       simp only [hl, this, Bool.and_self, if_true, if_neg h2]
-      exact pySlice_neg d2 cutEnd hc
+      cases st
+      · simp [← hl2]
+      · simp only [if_true, List.length_drop]
+        rw [List.drop_take, hl2]
+        congr 1; omega
   · rw [if_neg hl]
     have : (some key == lastKey) = false := by simpa using hl
-    simp [this]
+    simp only [this, Bool.false_and, Bool.false_eq_true, if_false]
+    rw [List.take_of_length_le (by omega)]
+    cases st <;> simp
 
 /-- the pieces after trimming, as the second loop produces them -/
 def trimmed (dat : Piece → Bytes) (before cutEnd : Nat) (lastKey : Option (Nat × Nat)) : Bool → List Piece → List Bytes
   | _, [] => []
-  | st, p :: r => pieceBytes before cutEnd lastKey st p.1 (dat p) :: trimmed dat before cutEnd lastKey false r
+  | st, p :: r => pieceBytes before cutEnd lastKey st p.1 p.2.2 (dat p) :: trimmed dat before cutEnd lastKey false r
 
 theorem assemble_fold (gd : Nat → Nat → Int → Except Err Bytes) (dat : Piece → Bytes) (before cutEnd : Nat)
     (lastKey : Option (Nat × Nat)) : ∀ (ps : List Piece) (out : List Bytes) (st : Bool),
@@ -448,27 +467,27 @@ theorem assemble_fold (gd : Nat → Nat → Int → Except Err Bytes) (dat : Pie
     simp only [List.foldl_cons]
     have hp := h p (by simp)
     have : assembleStep gd before cutEnd lastKey (.ok (out, st)) p =
-        .ok (out ++ [pieceBytes before cutEnd lastKey st p.1 (dat p)], false) := by
+        .ok (out ++ [pieceBytes before cutEnd lastKey st p.1 p.2.2 (dat p)], false) := by
       unfold assembleStep; simp only [hp]
     rw [this]
-    obtain ⟨st', hst⟩ := ih (out ++ [pieceBytes before cutEnd lastKey st p.1 (dat p)]) false (fun q hq => h q (by simp [hq]))
+    obtain ⟨st', hst⟩ := ih (out ++ [pieceBytes before cutEnd lastKey st p.1 p.2.2 (dat p)]) false (fun q hq => h q (by simp [hq]))
     exact ⟨st', by rw [hst]; simp [trimmed]⟩
 
 theorem trimmed_false (dat : Piece → Bytes) (before cutEnd : Nat) (hc : 0 < cutEnd) : ∀ (ps : List Piece) (last : Piece),
-    ps.getLast? = some last → (ps.map (·.1)).Nodup →
+    ps.getLast? = some last → (ps.map (·.1)).Nodup → (∀ p, p ∈ ps → (dat p).length = p.2.2) →
     trimmed dat before cutEnd (some last.1) false ps =
       trimLast (if cutEnd = 0x200 then 0 else cutEnd) (ps.map fun p => patchHdr p.1 (dat p)) := by
   intro ps
   induction ps with
   | nil => intro last h; simp at h
   | cons p r ih =>
-    intro last hl hnd
+    intro last hl hnd hlen
     cases r with
     | nil =>
       simp only [List.getLast?_singleton, Option.some.injEq] at hl
       subst hl
       simp only [trimmed, List.map_cons, List.map_nil, trimLast]
-      rw [pieceBytes_eq _ _ _ _ _ _ hc]
+      rw [pieceBytes_eq _ _ _ _ _ _ _ hc (hlen p (by simp))]
       simp
     | cons q r' =>
       rw [List.getLast?_cons_cons] at hl
@@ -483,15 +502,15 @@ theorem trimmed_false (dat : Piece → Bytes) (before cutEnd : Nat) (hc : 0 < cu
       have hnd' : ((q :: r').map (·.1)).Nodup := by
         simp only [List.map_cons, List.nodup_cons] at hnd ⊢
         exact hnd.2
-      have := ih last hl hnd'
+      have := ih last hl hnd' (fun x hx => hlen x (by simp [hx]))
       simp only [trimmed, List.map_cons, trimLast] at this ⊢
-      rw [pieceBytes_eq _ _ _ _ _ _ hc]
+      rw [pieceBytes_eq _ _ _ _ _ _ _ hc (hlen p (by simp))]
       have hb : (some p.1 == some last.1) = false := by simpa using hne
       simp only [hb, Bool.false_eq_true, if_false]
       rw [this]
 
 theorem trimmed_true (dat : Piece → Bytes) (before cutEnd : Nat) (hc : 0 < cutEnd) (ps : List Piece) (last : Piece)
-    (hl : ps.getLast? = some last) (hnd : (ps.map (·.1)).Nodup) :
+    (hl : ps.getLast? = some last) (hnd : (ps.map (·.1)).Nodup) (hlen : ∀ p, p ∈ ps → (dat p).length = p.2.2) :
     trimmed dat before cutEnd (some last.1) true ps =
       trimBlocks before (if cutEnd = 0x200 then 0 else cutEnd) (ps.map fun p => patchHdr p.1 (dat p)) := by
   cases ps with
@@ -502,7 +521,7 @@ theorem trimmed_true (dat : Piece → Bytes) (before cutEnd : Nat) (hc : 0 < cut
       simp only [List.getLast?_singleton, Option.some.injEq] at hl
       subst hl
       simp only [trimmed, List.map_cons, List.map_nil, trimBlocks]
-      rw [pieceBytes_eq _ _ _ _ _ _ hc]
+      rw [pieceBytes_eq _ _ _ _ _ _ _ hc (hlen p (by simp))]
       simp
     | cons q r' =>
       rw [List.getLast?_cons_cons] at hl
@@ -517,9 +536,9 @@ theorem trimmed_true (dat : Piece → Bytes) (before cutEnd : Nat) (hc : 0 < cut
       have hnd' : ((q :: r').map (·.1)).Nodup := by
         simp only [List.map_cons, List.nodup_cons] at hnd ⊢
         exact hnd.2
-      have := trimmed_false dat before cutEnd hc (q :: r') last hl hnd'
+      have := trimmed_false dat before cutEnd hc (q :: r') last hl hnd' (fun x hx => hlen x (by simp [hx]))
       simp only [trimmed, List.map_cons, trimBlocks] at this ⊢
-      rw [pieceBytes_eq _ _ _ _ _ _ hc]
+      rw [pieceBytes_eq _ _ _ _ _ _ _ hc (hlen p (by simp))]
       have hb : (some p.1 == some last.1) = false := by simpa using hne
       simp only [hb, Bool.false_eq_true, if_false, if_true]
       rw [this]
@@ -527,7 +546,8 @@ theorem trimmed_true (dat : Piece → Bytes) (before cutEnd : Nat) (hc : 0 < cut
 theorem assemble_spec (gd : Nat → Nat → Int → Except Err Bytes) (dat : Piece → Bytes) (before cutEnd : Nat) (hc : 0 < cutEnd)
     (ps : List Piece) (last : Piece) (hl : ps.getLast? = some last) (hnd : (ps.map (·.1)).Nodup)
     (hgd : ∀ p, p ∈ ps → gd p.1.1 p.2.1 (p.2.2 : Int) = .ok (dat p))
-    (hlen : ∀ p, p ∈ ps → 0x200 ≤ (patchHdr p.1 (dat p)).length) (hb : before < 0x200) (hk : cutEnd ≤ 0x200)
+    (hlen : ∀ p, p ∈ ps → 0x200 ≤ (patchHdr p.1 (dat p)).length) (hplanned : ∀ p, p ∈ ps → (dat p).length = p.2.2)
+    (hb : before < 0x200) (hk : cutEnd ≤ 0x200)
     (hsingle : ∀ p, ps = [p] → before + (if cutEnd = 0x200 then 0 else cutEnd) ≤ (patchHdr p.1 (dat p)).length) :
     assemble gd before cutEnd (some last.1) ps =
       .ok (((ps.map fun p => patchHdr p.1 (dat p)).flatten.drop before).take
@@ -536,7 +556,7 @@ theorem assemble_spec (gd : Nat → Nat → Int → Except Err Bytes) (dat : Pie
   obtain ⟨st', hf⟩ := assemble_fold gd dat before cutEnd (some last.1) ps [] true hgd
   rw [hf]
   simp only [List.nil_append]
-  rw [trimmed_true dat before cutEnd hc ps last hl hnd]
+  rw [trimmed_true dat before cutEnd hc ps last hl hnd hplanned]
   have hne : ps ≠ [] := by intro h; rw [h] at hl; simp at hl
   rw [flatten_trimBlocks before _ (ps.map fun p => patchHdr p.1 (dat p)) (by simpa using hne)]
   · intro h hh
@@ -752,7 +772,8 @@ theorem fullRead_spec (E : Bytes → Bytes → Bytes) (s : State) (file : Bytes)
     unfold fullImage
     exact Save.flatMap_length_uniform _ 0x200 N (fun b hb => chunkContent_length E s file start src N g b hb)
   rw [assemble_spec (getData E s file start) (fun p => slice (src p.1.1) p.2.1 p.2.2) before cutEnd hc0 _ last hlastget hplan.nodup
-    hgd (fun p hp => by rw [hBlen p hp]; have := hplan.sizes p hp; omega) hbl hcle
+    hgd (fun p hp => by rw [hBlen p hp]; have := hplan.sizes p hp; omega)
+    (fun p hp => by rw [← patchHdr_length p.1, hBlen p hp]) hbl hcle
     (fun p hp1 => by
       have hp : p ∈ plan s (0x200 * a) n := by rw [hp1]; simp
       have htot := congrArg List.length hflat
